@@ -177,7 +177,7 @@ def merge_tool(ctx, b):
         threads = rng.choice([0, 0, 2])
         cmd = [tools["merge"], "-c", rng.choice(gen.COMPS), "-b", str(rng.choice([1024, 8192]))] + (["-t", str(threads)] if threads else []) + paths + [outp]
         p = subprocess.run(cmd, stdout=subprocess.PIPE, stderr=subprocess.PIPE, text=True, timeout=120,
-                           env=dict(os.environ, MTBL_MERGE_DSO=dso, MTBL_MERGE_FUNC_PREFIX="vsbag", LC_ALL="C"))
+                           env=dict(os.environ, MTBL_MERGE_DSO=dso, MTBL_MERGE_FUNC_PREFIX=("vsbag" if n % 3 else "vsplain"), LC_ALL="C"))
         r2, rc2, err2 = M.run_script(ctx, b, wd, ["scratch " + wd, "r_init 0 %s 1 0" % outp, "it_iter 1 r:0", "it_drain 1", "it_destroy 1", "r_destroy 0"], "r")
         recs += r1 + [{"e": "MergeTool", "inputs": paths, "out": outp, "rc": p.returncode, "stderr": p.stderr[-200:]}] + [e for e in r2 if e["e"] != "Reset"]
         ctx.add("merge_tool_runs", 1)
